@@ -168,6 +168,9 @@ type bitEval struct {
 	fields map[string]bv              // value stored to field <name> (last store in an unconditional block)
 	rets   []bv
 	uncond map[*ssa.BasicBlock]bool
+	env    map[string]int64 // assumed constants for named fields / parameters (runPath)
+	depth  int
+	phiBool map[*ssa.Phi]bool
 }
 
 func newBitEval(p *Program, fn *ssa.Function) *bitEval {
@@ -295,7 +298,26 @@ func (e *bitEval) index(idx ssa.Value) (int64, bool) {
 	if d, ok := e.curAt[idx]; ok {
 		return d, true
 	}
+	if e.env != nil {
+		if k, ok := constOf(e.eval(idx), idx.Type()); ok {
+			return k, true
+		}
+	}
 	return 0, false
+}
+
+// callResults evaluates a module callee under the same assumed configuration.
+func (e *bitEval) callResults(call *ssa.Call) ([]bv, bool) {
+	cal := call.Call.StaticCallee()
+	if cal == nil || e.env == nil || !e.p.InModule(cal) || len(cal.Blocks) == 0 || e.depth > 2 {
+		return nil, false
+	}
+	sub := newBitEval(e.p, cal)
+	sub.depth = e.depth + 1
+	if !sub.runPath(e.env) {
+		return nil, false
+	}
+	return sub.rets, len(sub.rets) > 0
 }
 
 func (e *bitEval) eval(v ssa.Value) bv {
@@ -387,8 +409,8 @@ func (e *bitEval) eval1(v ssa.Value) bv {
 				r[i] = orBit(a[i], b[i])
 			}
 		case token.SUB, token.MUL, token.QUO, token.REM:
-			ka, oka := evalInt(x.X)
-			kb, okb := evalInt(x.Y)
+			ka, oka := constOf(a, x.X.Type())
+			kb, okb := constOf(b, x.Y.Type())
 			if oka && okb {
 				switch x.Op {
 				case token.SUB:
@@ -408,6 +430,9 @@ func (e *bitEval) eval1(v ssa.Value) bv {
 			// load: array element, cursor, or opaque field/cell
 			if ia, ok := x.X.(*ssa.IndexAddr); ok {
 				_, isArr := ia.X.Type().Underlying().(*types.Pointer)
+				if _, isMk := ia.X.(*ssa.MakeSlice); isMk {
+					isArr = true
+				}
 				if i, ok := e.index(ia.Index); ok && isArr {
 					return e.readByte(e.arrayRootOf(ia.X), i)
 				}
@@ -427,6 +452,9 @@ func (e *bitEval) eval1(v ssa.Value) bv {
 			if f, _, ok := fieldAddr(x.X); ok {
 				if v, ok := e.fields[f.Name()]; ok {
 					return v
+				}
+				if k, ok := e.env[f.Name()]; ok {
+					return fit(bvConst(uint64(k)), x.Type())
 				}
 			}
 			w, s := typeWidth(x.Type())
@@ -472,9 +500,24 @@ func (e *bitEval) eval1(v ssa.Value) bv {
 			}
 			return r
 		}
+		if rs, ok := e.callResults(x); ok && len(rs) == 1 {
+			return rs[0]
+		}
 		w, s := typeWidth(x.Type())
 		return bvInput(e.name(x), w, s)
 	case *ssa.Parameter, *ssa.Phi, *ssa.Extract, *ssa.Field, *ssa.Lookup, *ssa.TypeAssert, *ssa.FreeVar:
+		if ex, ok := v.(*ssa.Extract); ok {
+			if call, ok := ex.Tuple.(*ssa.Call); ok {
+				if rs, ok := e.callResults(call); ok && ex.Index < len(rs) {
+					return rs[ex.Index]
+				}
+			}
+		}
+		if par, ok := v.(*ssa.Parameter); ok {
+			if k, ok := e.env[par.Name()]; ok {
+				return fit(bvConst(uint64(k)), par.Type())
+			}
+		}
 		w, s := typeWidth(v.Type())
 		return bvInput(e.name(v), w, s)
 	}
@@ -681,4 +724,124 @@ func sortedKeys(m map[string]bv) []string {
 	}
 	sort.Strings(ks)
 	return ks
+}
+
+// ---------------------------------------------------------------- constant propagation under an assumed configuration
+
+// constOf returns the constant a fully-constant vector denotes.
+func constOf(v bv, t types.Type) (int64, bool) {
+	var u uint64
+	for i := 0; i < 64; i++ {
+		switch v[i].K {
+		case 0:
+		case 1:
+			u |= 1 << uint(i)
+		default:
+			return 0, false
+		}
+	}
+	return int64(u), true
+}
+
+// condValue evaluates a branch condition to a constant when its operands are constant under env.
+func (e *bitEval) condValue(cond ssa.Value) (bool, bool) {
+	switch x := cond.(type) {
+	case *ssa.Const:
+		return constBool(x)
+	case *ssa.UnOp:
+		if x.Op == token.NOT {
+			v, ok := e.condValue(x.X)
+			return !v, ok
+		}
+		if f, _, ok := fieldLoad(x); ok {
+			if k, ok := e.env[f.Name()]; ok {
+				return k != 0, true
+			}
+		}
+	case *ssa.Phi:
+		if v, ok := e.phiBool[x]; ok {
+			return v, true
+		}
+	case *ssa.BinOp:
+		a, oka := constOf(e.eval(x.X), x.X.Type())
+		b, okb := constOf(e.eval(x.Y), x.Y.Type())
+		if !oka || !okb {
+			return false, false
+		}
+		switch x.Op {
+		case token.EQL:
+			return a == b, true
+		case token.NEQ:
+			return a != b, true
+		case token.LSS:
+			return a < b, true
+		case token.LEQ:
+			return a <= b, true
+		case token.GTR:
+			return a > b, true
+		case token.GEQ:
+			return a >= b, true
+		}
+	}
+	return false, false
+}
+
+// runPath interprets fn along the single path determined by env (constant
+// values assumed for the named struct fields / parameters): classic
+// conditional constant propagation specialised to one configuration. It stops
+// at the first branch whose condition is not constant. Returns whether a
+// Return was reached.
+func (e *bitEval) runPath(env map[string]int64) bool {
+	e.env = env
+	e.phiBool = map[*ssa.Phi]bool{}
+	b := e.fn.Blocks[0]
+	var prev *ssa.BasicBlock
+	for steps := 0; steps < 400; steps++ {
+		// phis take the value of the incoming edge
+		if prev != nil {
+			for i, pr := range b.Preds {
+				if pr != prev {
+					continue
+				}
+				for _, ins := range b.Instrs {
+					ph, ok := ins.(*ssa.Phi)
+					if !ok {
+						break
+					}
+					if bv2, isc := constBool(ph.Edges[i]); isc {
+						e.phiBool[ph] = bv2
+					} else if cv, ok := e.condValue(ph.Edges[i]); ok && ph.Type().String() == "bool" {
+						e.phiBool[ph] = cv
+					}
+					e.memo[ph] = e.eval(ph.Edges[i])
+				}
+			}
+		}
+		for _, ins := range b.Instrs {
+			e.step(ins)
+			switch x := ins.(type) {
+			case *ssa.Return:
+				_ = x
+				return true
+			case *ssa.If:
+				v, ok := e.condValue(x.Cond)
+				if !ok {
+					return false
+				}
+				prev = b
+				if v {
+					b = b.Succs[0]
+				} else {
+					b = b.Succs[1]
+				}
+			case *ssa.Jump:
+				prev = b
+				b = b.Succs[0]
+			}
+		}
+		if len(b.Instrs) == 0 {
+			return false
+		}
+	}
+	return false
 }
